@@ -1521,7 +1521,7 @@ def representable_dec(q):
 
 def run_C07(tier, rng, stats):
     from fractions import Fraction as Fr
-    lits = ['0', '1', '2', '3', '7', '10', '0.1', '0.2', '0.3', '1.10', '2.50', '0.5', '0.25', '0.125', '1.5', '3.3', '12345.6789', '0.001',
+    lits = ['0', '0.0', '0.000', '1', '2', '3', '7', '10', '0.1', '0.2', '0.3', '1.10', '2.50', '0.5', '0.25', '0.125', '1.5', '3.3', '12345.6789', '0.001',
             '99999999999999', '0.0000000001', '79228162514264337593543950335', '7922816251426433759354395033.5', '0.0000000000000000000000000001',
             '1234567890123456789012345678', '39614081257132168796771975168', '0.9999999999999999999999999999', '123456789.123456789', '1000000']
     n = 1500 if tier == 'quick' else 20000
@@ -1613,6 +1613,27 @@ def run_C08(tier, rng, stats):
                 c = case('complex', 'eval', cw(z), '@' + op + wl); cs.append(c); meta[c] = ('op', op, (z, w))
             for f in gen.F2['complex']:
                 c = case('complex', 'eval', cw(z), f + '(@,' + wl + ')'); cs.append(c); meta[c] = ('c2', f, (z, w))
+    # mixed operand classes: real / purely imaginary / generic complex on either side of every two-operand construct
+    # (positive reals and positive imaginary parts, away from the branch cuts)
+    cls = [complex(2.5, 0.0), complex(5.0, 0.0), complex(0.75, 0.0), complex(0.0, 1.5), complex(0.0, 0.5), complex(3.0, 2.0), complex(1.5, -0.5), complex(-1.25, 2.0)]
+    cls += [complex((1 + rng.below(900)) / 100.0, 0.0) for _ in range(6 if tier == 'quick' else 40)]
+    def lit(w):
+        if w.imag == 0:
+            return dec_lit(w.real)
+        if w.real == 0:
+            return dec_lit(w.imag) + 'i'
+        return '(' + dec_lit(w.real) + ('+' if w.imag >= 0 else '-') + dec_lit(abs(w.imag)) + 'i)'
+    for z in cls:
+        for w in cls:
+            if z.imag != 0 and w.imag != 0 and z.real != 0 and w.real != 0:
+                continue
+            for op in '+-*/^':
+                c = case('complex', 'eval', cw(z), '@' + op + lit(w)); cs.append(c); meta[c] = ('op', op, (z, w))
+                c = case('complex', 'eval', cw(w), lit(z) + op + '@'); cs.append(c); meta[c] = ('op', op, (z, w))
+            for f in gen.F2['complex']:
+                c = case('complex', 'eval', cw(z), f + '(@,' + lit(w) + ')'); cs.append(c); meta[c] = ('c2', f, (z, w))
+                c = case('complex', 'eval', cw(w), f + '(' + lit(z) + ',@)'); cs.append(c); meta[c] = ('c2', f, (z, w))
+                c = case('complex', 'eval', None, f + '(' + lit(z) + ',' + lit(w) + ')'); cs.append(c); meta[c] = ('c2', f, (z, w))
     # lexing of i
     for e, want in [('i', 1j), ('2i', 2j), ('i*i', -1 + 0j), ('i²', None), ('1.5i+2', 2 + 1.5j), ('2ii', -2 + 0j), ('pi', complex(math.pi, 0)), ('.5i', 0.5j)]:
         c = case('complex', 'eval', None, e); cs.append(c); meta[c] = ('lit', e, (want,))
